@@ -6,6 +6,7 @@ import (
 	"github.com/0xrawsec/sod"
 
 	"verifsim/model"
+	"verifsim/shapes"
 	"verifsim/simrt"
 )
 
@@ -15,10 +16,20 @@ func (s *Seq) callOp(db *sod.DB, m *model.Model, op *Op) error {
 	save := s.M
 	s.M = m
 	defer func() { s.M = save }()
+	// on asynchronous collections half of the enumerated calls are followed by the flush
+	// of what they queued: the faults then also land in the object writes and the commit
+	// of a flush (a failed flush must keep what it could not write)
+	withFlush := s.Cfg.Async && (op.Lid+len(op.Batch))%2 == 0
+	flushAfter := func(err error) error {
+		if err == nil && withFlush {
+			err = db.FlushAllAndCommit(rec0())
+		}
+		return err
+	}
 	switch op.K {
 	case "save":
 		o := s.build(op.Lid, op.Rec, op.NaN)
-		return db.InsertOrUpdate(o)
+		return flushAfter(db.InsertOrUpdate(o))
 	case "del":
 		u, known := m.UUID[op.Lid]
 		o := rec0()
@@ -59,10 +70,10 @@ func (s *Seq) callOp(db *sod.DB, m *model.Model, op *Op) error {
 				c = 1
 			}
 			_, err := db.InsertOrUpdateBulk(ch, c)
-			return err
+			return flushAfter(err)
 		}
 		_, err := db.InsertOrUpdateMany(list...)
-		return err
+		return flushAfter(err)
 	}
 	return nil
 }
@@ -319,9 +330,23 @@ func (s *Seq) judgeFaultPending(db *sod.DB, desc string, before, after *model.Mo
 		// a call that reports success must show its result; one that fails on storage
 		// may have been applied or not (as in synchronous mode), but the handle must
 		// show one of the two states on every read path, not a mixture
-		cands := []*model.Model{after}
+		// an object created by the call received its UUID in this re-execution
+		after2 := after.CopyState()
+		if all, err := db.All(rec0()); err == nil {
+			for _, o := range all {
+				if r, ok := o.(*shapes.Rec); ok && r != nil {
+					if _, old := before.Objs[r.Lid]; !old {
+						if a, isNew := after2.Objs[r.Lid]; isNew {
+							after2.UUID[r.Lid] = r.UUID()
+							a.Initialize(r.UUID())
+						}
+					}
+				}
+			}
+		}
+		cands := []*model.Model{after2}
 		if callErr != nil {
-			cands = []*model.Model{before, after}
+			cands = []*model.Model{before, after2}
 		}
 		if cerr := db.Control(); cerr == nil {
 			seed := s.prng.Uint64()
